@@ -14,7 +14,8 @@ package main
 //   (a) an assignment whose left side indexes into a slice (x[i] = …, x[i].f = …) unless the slice
 //       variable / field was assigned from slices.Clone(…) or make(…) earlier in the same function;
 //   (b) a call of a mutating function of package slices (Delete, DeleteFunc, Insert, Replace,
-//       Compact, CompactFunc, Reverse, Sort, SortFunc, SortStableFunc) on anything;
+//       Compact, CompactFunc, Reverse, Sort, SortFunc, SortStableFunc) on a slice that is not the
+//       function's own (cloned / made in it);
 //   (c) append(x, …) / append(x[:i], …) where x is not a local that started empty (var / nil /
 //       make / slices.Clone / slices.Clip) and is not wrapped in slices.Clip(…) / slices.Clone(…);
 //   (d) copy(dst, …) where dst is not such a fresh local.
@@ -137,6 +138,13 @@ func genUCHelpers(outDir string) (string, error) {
 										continue
 									}
 								}
+								if c, ok := r.(*ast.CallExpr); ok && strings.HasPrefix(exprString(c.Fun), "slices.") && len(c.Args) > 0 {
+									a0 := root(c.Args[0])
+									if isFreshCall(a0) || fresh[exprString(a0)] {
+										fresh[key] = true // result of a slices function applied to an own array
+										continue
+									}
+								}
 								if _, isComposite := r.(*ast.CompositeLit); isComposite {
 									fresh[key] = true
 									continue
@@ -147,7 +155,14 @@ func genUCHelpers(outDir string) (string, error) {
 					case *ast.CallExpr:
 						s := exprString(x.Fun)
 						if strings.HasPrefix(s, "slices.") && mutators[strings.TrimPrefix(s, "slices.")] {
-							report("calls "+s+" (rewrites the array in place)", x.Pos())
+							own := false
+							if len(x.Args) > 0 {
+								a0 := root(x.Args[0])
+								own = isFreshCall(a0) || fresh[exprString(a0)]
+							}
+							if !own {
+								report("calls "+s+" (rewrites the array in place)", x.Pos())
+							}
 						}
 						if s == "append" && len(x.Args) > 0 {
 							a0 := root(x.Args[0])
